@@ -105,4 +105,13 @@ impl TopicAliasRecv {
     pub fn max(&self) -> TopicAliasType {
         self.max_alias
     }
+
+    /// Verification hook: alias -> topic bindings sorted by alias.
+    #[cfg(mqtt_protocol_core_verif)]
+    pub fn verif_dump(&self) -> alloc::vec::Vec<(TopicAliasType, String)> {
+        let mut v: alloc::vec::Vec<(TopicAliasType, String)> =
+            self.aliases.iter().map(|(a, t)| (*a, t.clone())).collect();
+        v.sort();
+        v
+    }
 }
